@@ -14,7 +14,9 @@ RULE = ('texts over each predefined (and a few custom) alphabet with upper/lower
         'call and handed over untouched, with the expected rows obtained by the same indexing on Python lists; numeric offset '
         'encodings (Digit/Quality/Cigar: every byte 0..255, all routes, encode-decode round trip); StringEncoding (label sets x '
         'known labels, near-miss unknown labels at every position, hash-colliding unknown labels); KmerEncoding (all k-mers for '
-        'small n^k, largest k-mer, foreign letter at every position, wrong lengths).  Non-trivial = the text '
+        'small n^k, largest k-mer, foreign letter at every position, wrong lengths); two-dimensional blocks (rows of equal length) '
+        'in C order, Fortran order, as transposed views, column / row slices of larger blocks and negative strides through '
+        'enc.encode, as_encoded_array, enc.decode, re-targeting and change_encoding, read back at every (row, column).  Non-trivial = the text '
         'contains a foreign or lower-case character, or the pair is a cross-alphabet pair')
 EXHAUSTIVE = {'quick': False, 'thorough': False}
 TIE = 'translator+correspondence'
@@ -35,6 +37,7 @@ PARTIAL = ['C06_lookup_pinned_partial, C06_encode_rows_pinned_partial, C06_chang
            '(C06_encode_exact), but it is not part of spec_ok: the property text only says "raises an encoding error"',
            'KmerEncoding: C06_kmer_exact / C06_kmer_injective are model-level; there is no link theorem for case kind 6 '
            '(spec_ok is evaluated case by case)',
+           '2-D blocks are exercised for alphabet encodings in six memory layouts; FlatAlphabetEncoding (strand) ravels 2-D input by design',
            'numeric offset encodings do not reject bytes below min_code (uint8 wrap, C06_numeric_u8_below_range_wraps); the property '
            'does not ask them to']
 PER_FILE = 64
@@ -384,6 +387,69 @@ def _gen_kmer(tier, rng):
     return cases
 
 
+# ----------------------------------------------------------------------------- two-dimensional blocks
+# A 2-D (Encoded)array is a list of rows of equal length; its memory layout must not matter.  The Coq side sees the rows.
+LAYOUTS = ['C', 'F', 'T', 'colslice', 'rowslice', 'neg']
+SHAPES_2D = [(2, 3), (3, 2), (2, 2), (3, 5), (1, 4), (4, 1), (5, 3)]
+
+
+def _layout(b, layout):
+    """the same 2-D values in another memory layout (junk 255 between the elements of the sliced layouts)"""
+    import numpy as np
+    r, c = b.shape
+    if layout == 'C':
+        return np.ascontiguousarray(b)
+    if layout == 'F':
+        return np.asfortranarray(b)
+    if layout == 'T':                                   # transposed view of a C-ordered block
+        return np.ascontiguousarray(b.T).T
+    if layout == 'colslice':                            # every second column of a wider block
+        w = np.full((r, 2 * c), 255, dtype=b.dtype)
+        w[:, ::2] = b
+        return w[:, ::2]
+    if layout == 'rowslice':                            # every second row of a taller block
+        w = np.full((2 * r, c), 255, dtype=b.dtype)
+        w[::2] = b
+        return w[::2]
+    if layout == 'neg':                                 # negative column stride
+        return np.ascontiguousarray(b[:, ::-1])[:, ::-1]
+    raise ValueError(layout)
+
+
+def _gen_2d(tier, rng):
+    cases = []
+    names = [n for n, _ in PRE]
+    for a in ENCS:
+        A = _alpha(a)
+        n = len(A)
+        foreign = [c for c in _interesting(A) if not _member(A, c)]
+        dsts = [a, 'Base', names[(ENCS.index(a) + 1) % len(names)], 'ACGTEncoding' if a != 'ACGTEncoding' else 'ACGTnEncoding']
+        shapes = SHAPES_2D if tier != 'quick' else rng.sample(SHAPES_2D[:4], 2) + rng.sample(SHAPES_2D[4:], 1)
+        flat_enc = (a == 'StrandEncoding')       # FlatAlphabetEncoding._encode ravels its input by design: no 2-D result
+        for (r, c) in shapes:
+            for rep in range(1 if tier == 'quick' else 3):
+                for _ in range(20):
+                    codes = [[rng.randrange(n) for _ in range(c)] for _ in range(r)]
+                    if r == 1 or c == 1 or [x for row in codes for x in row] != [codes[i][j] for j in range(c) for i in range(r)]:
+                        break
+                text = [_s([_rcase(rng, A[k]) for k in row]) for row in codes]
+                for li, layout in enumerate(LAYOUTS):
+                    for b in dsts:
+                        for mk in ((0,) if flat_enc else ((0, 1) if b != a else (1,))):
+                            # mk 0: EncodedArray(block, src); mk 1: src.encode(base block) (the lookup keeps the layout)
+                            cases.append(dict(kind=1, route=13, src=a, dst=b, rows=codes, layout=layout, mk=mk))
+                            cases.append(dict(kind=2, route=13, src=a, dst=b, rows=codes, layout=layout, mk=mk))
+                    cases.append(dict(kind=2, route=14, src=a, dst='Base', rows=codes, layout=layout, mk=0 if flat_enc else li % 2))    # enc.decode
+                    if flat_enc:
+                        continue
+                    t = list(text)
+                    if (li + rep) % 3 == 2:
+                        i, j = rng.randrange(r), rng.randrange(c)
+                        t[i] = t[i][:j] + chr(rng.choice(foreign)) + t[i][j + 1:]
+                    cases.append(dict(kind=0, route=10 + (li + rep) % 3, dst=a, rows=t, layout=layout))
+    return cases
+
+
 def generate(tier, seed):
     rng = random.Random(seed * 7919 + 6)
     cases = []
@@ -395,6 +461,7 @@ def generate(tier, seed):
     enc.sort(key=lambda c: sum(len(r) for r in c['rows']))
     cases += enc + pairs + _gen_views(tier, rng)
     cases += _gen_numeric(tier, rng) + _gen_string(tier, rng) + _gen_kmer(tier, rng)
+    cases += _gen_2d(tier, rng)
     return cases
 
 
@@ -453,6 +520,28 @@ def _result(r, want_flat, dst, enc_obj):
     if text != t2:
         return dict(err='other', name='to_string and enc.decode disagree')
     return dict(codes=codes, text=[t.encode('latin1').hex() for t in text], same_enc=bool(r.encoding == enc_obj))
+
+
+def _result2d(r, shape, enc_obj):
+    """observation of a returned 2-D encoded array: rows of codes, rows of text read at (row, column)"""
+    import numpy as np
+    from bionumpy.encoded_array import EncodedArray
+    if not isinstance(r, EncodedArray) or r.raw().ndim != 2:
+        return dict(err='other', name='type:' + type(r).__name__)
+    if tuple(r.shape) != tuple(shape):
+        return dict(err='other', name='shape %s instead of %s' % (tuple(r.shape), tuple(shape)))
+    try:
+        raw = r.raw()
+        codes = [[int(raw[i, j]) for j in range(shape[1])] for i in range(shape[0])]
+        text = [r[i].to_string() for i in range(shape[0])]
+        d = r.encoding.decode(r).raw()
+        t2 = [''.join(chr(int(d[i, j])) for j in range(shape[1])) for i in range(shape[0])]
+        whole = r.to_string()
+    except Exception as ex:
+        return dict(err='undec', name='decode:' + type(ex).__name__)
+    if text != t2 or whole != ''.join(text):
+        return dict(err='other', name='row-wise to_string, enc.decode and to_string of the block disagree')
+    return dict(codes=codes, text=[s.encode('latin1').hex() for s in text], same_enc=bool(r.encoding == enc_obj))
 
 
 def _observe_ext(case):
@@ -562,6 +651,21 @@ def observe(case):
     if kind == 0:
         rows = case['rows']
         flat_bytes = np.frombuffer(''.join(rows).encode('latin1'), dtype=np.uint8)
+        if 'layout' in case:
+            blk = _layout(np.array([[c for c in r.encode('latin1')] for r in rows], dtype=np.uint8), case['layout'])
+            try:
+                if route == 10:
+                    r = dst.encode(blk)
+                elif route == 11:
+                    r = bnp.as_encoded_array(EncodedArray(blk, BaseEncoding), dst)
+                else:
+                    r = dst.encode(EncodedArray(blk, BaseEncoding))
+            except Exception as ex:
+                return _err(ex)
+            o = _result2d(r, blk.shape, dst)
+            if 'codes' in o and not o['same_enc']:
+                return dict(err='other', name='result carries another encoding')
+            return o
         try:
             if 'view' in case:
                 # a lazy, non-contiguous view built by prior indexing; handed over untouched
@@ -596,6 +700,24 @@ def observe(case):
         return o
     src = _get_enc(case['src'])
     rows = case['rows']
+    if 'layout' in case:
+        A = _alpha(case['src'])
+        try:
+            if case['mk'] == 0:
+                x = EncodedArray(_layout(np.array(rows, dtype=np.uint8), case['layout']), src)
+            else:
+                x = src.encode(_layout(np.array([[A[k] for k in row] for row in rows], dtype=np.uint8), case['layout']))
+            shape = x.shape
+            if route == 14:
+                r = src.decode(x)
+            else:
+                r = bnp.as_encoded_array(x, dst) if kind == 1 else bnp.change_encoding(x, dst)
+        except Exception as ex:
+            return _err(ex)
+        o = _result2d(r, shape, dst)
+        if 'codes' in o and not o['same_enc'] and not (kind == 1 and r.encoding == src):
+            return dict(err='other', name='result carries another encoding')
+        return o
     if 'view' in case:
         rows = case['base']
     flat = np.array([c for r in rows for c in r], dtype=np.uint8)
